@@ -4,6 +4,11 @@ import json, os
 V = os.path.dirname(os.path.dirname(os.path.abspath(__file__)))
 ALL = ["C%02d" % i for i in range(1, 21)]
 CHECKS = {
+ "C07": dict(
+   text="Exhaustive TLC model checking of the reader's window arithmetic (specs/netbuf/NbReadImpl.tla: growth, compaction, one read in flight credited at once, re-arm, cancel; every fragmentation and wait/consume/cancel order over a scaled buffer of 4) and of the writer's queue (NbWriteImpl.tla: coalescing, one write in flight, sticky failure; every accept fragmentation and failure point); behaviours simulated from both models are scaled by 1024 to the real 4096-byte buffers and, together with seeded random programs (waits from 1 to 5x4096 started from callbacks and from outside, cancel at arbitrary instants, write/reserve/consume sizes 0..3x4096, EAGAIN/EINTR/EOF/error positions), executed by the real netbuf/network/events code on scripted sockets; every trace is validated by TLC against NbTrace.tla (window content = peer stream from the first unconsumed byte, status clauses, prefix property of the writer, single failure callback).",
+   note="Assumes the application does not consume while a wait is pending; scripted sockets are the trusted environment; no SSL function pointers.",
+   technique="TLA+ model checking (TLC) + behaviours generated from the TLA+ models replayed into the real code + trace validation against the TLA+ spec",
+   design="6/C07"),
  "C06": dict(
    text="Fault-sequence enumeration by TLC model checking: NetRW.tla enumerates every kernel answer sequence (data 1..4, EAGAIN, EINTR, EOF, hard error, every cancellation instant) of length <= 4 (5 thorough) for every (buflen <= 4, min) pair, NetConnect.tla every outcome plan of <= 3 addresses over 8 outcomes with and without per-address timeout and every cancellation instant; the design-level invariants (exactly one callback, range, EOF/error, first connected, losers closed) are checked on all of them and ALL enumerated cases are replayed against the real network_*.c on the real event loop with scripted sockets; plus seeded random long programs (64 KiB buffers, back-to-back requests from callbacks, concurrent read+write, accept scripts). Every trace is validated by TLC against NetTrace.tla.",
    note="Kernel answers come from the scripted-socket layer (trusted environment model); getsockopt itself never fails; numeric addresses only.",
